@@ -1,5 +1,6 @@
 //! C07 (self-delimiting), C08 (truncation), C12 (container / size-form independence) over the built-in vocabulary.
 use crate::props::builtin::{tv_strategy, tv_strategy_ext, TV};
+use crate::props::evolution::{compiled_evo_strategy, evo_case_strategy, materialize_evo, EvoCase};
 use crate::run::{drive, parallel, to_json, Cx, Verdict};
 use crate::PropResult;
 use proptest::prelude::*;
@@ -77,23 +78,86 @@ pub fn check_c07(c: &SuffixCase, acc: &mut Acc, record: bool) -> Verdict {
     Verdict::Pass
 }
 
+#[derive(Debug, Clone, Serialize, Deserialize)]
+pub struct EvoSuffixCase {
+    pub evo: EvoCase,
+    pub suffix: Vec<u8>,
+}
+
+/// an older or newer definition reads a record with an evolution header: unknown chunks are skipped in full
+pub fn check_c07_evo(c: &EvoSuffixCase, acc: &mut Acc, record: bool) -> Verdict {
+    let (_tw, tr, mut bytes, expected, stored_version) = match materialize_evo(&c.evo) {
+        Some(x) => x,
+        None => {
+            if record {
+                acc.exclude("stored version 0 read by a definition that removed a chunk-0 field (DESIGN section 9)");
+            }
+            return Verdict::Skip;
+        }
+    };
+    let enc_len = bytes.len();
+    bytes.extend_from_slice(&c.suffix);
+    if record {
+        let rel = if c.evo.w < c.evo.r { "w<r" } else if c.evo.w == c.evo.r { "w=r" } else { "w>r" };
+        let class = format!("evolved record [{rel}]{} {:?}", if c.evo.compiled.is_some() { " compiled" } else { "" }, c.evo.placement);
+        acc.case(&class, hash_json(c), !c.suffix.is_empty() && c.evo.w != c.evo.r);
+        if acc.wants_sample(&class) && c.evo.w != c.evo.r {
+            acc.sample(&class, json!({"writer_version": c.evo.w, "reader_version": c.evo.r, "stored_version_byte": stored_version, "value": c.evo.val.brief(), "encoding_len": enc_len, "suffix_hex": hex(&c.suffix)}));
+        }
+    }
+    let (got, rest) = vcat::decode_with_rest(&tr, &bytes);
+    match (expected, got) {
+        (Ok(e), Ok(g)) => {
+            if canon(&tr, &g) != canon(&tr, &e) {
+                return Verdict::Fail(format!("version {} read data of version {} as {} instead of {}", c.evo.r, c.evo.w, g.brief(), e.brief()));
+            }
+            if rest != c.suffix {
+                return Verdict::Fail(format!("version {} reading data of version {} (stored version byte {stored_version}) consumed {} bytes of an encoding of {enc_len}: left {} unread, expected the suffix {}", c.evo.r, c.evo.w, bytes.len() - rest.len(), hex(&rest), hex(&c.suffix)));
+            }
+            Verdict::Pass
+        }
+        // a record-level error is the documented outcome: the position is not asserted
+        (Err(_), Err(_)) => Verdict::Pass,
+        (Ok(e), Err(g)) => Verdict::Fail(format!("version {} failed to read data of version {} followed by a suffix: {g:?} (expected {})", c.evo.r, c.evo.w, e.brief())),
+        (Err(e), Ok(g)) => Verdict::Fail(format!("version {} read data of version {} as {} where the documented outcome is {e:?}", c.evo.r, c.evo.w, g.brief())),
+    }
+}
+
 pub fn run_c07(cx: &Cx) -> PropResult {
     let per_shard = cx.n(6_000, 200_000);
     let acc = parallel(cx, &|shard, acc| {
         let strat = suffix_case_strategy(3);
-        drive(crate::run::tag_seed(derive_seed(cx.seed, cx.prop, shard as u64, 0), 0), &strat, per_shard, acc, &|c: &SuffixCase| to_json(c), &mut |c, a, r| check_c07(c, a, r));
+        if drive(crate::run::tag_seed(derive_seed(cx.seed, cx.prop, shard as u64, 0), 0), &strat, per_shard, acc, &|c: &SuffixCase| to_json(&json!({"Plain": c})), &mut |c, a, r| check_c07(c, a, r)) {
+            return;
+        }
+        // evolved records read by older / newer definitions (run-time histories, then the compiled batch)
+        let strat = (if shard % 4 == 3 { evo_case_strategy(6, 24) } else { evo_case_strategy(5, 8) }, suffix_strategy()).prop_map(|(evo, suffix)| EvoSuffixCase { evo, suffix });
+        if drive(crate::run::tag_seed(derive_seed(cx.seed, cx.prop, shard as u64, 1), 1), &strat, per_shard / 2, acc, &|c: &EvoSuffixCase| to_json(&json!({"Evo": c})), &mut |c, a, r| check_c07_evo(c, a, r)) {
+            return;
+        }
+        let nh = crate::props::derived::batch().histories.len();
+        for h in (shard..nh).step_by(cx.shards) {
+            let strat = (compiled_evo_strategy(h), suffix_strategy()).prop_map(|(evo, suffix)| EvoSuffixCase { evo, suffix });
+            if drive(crate::run::tag_seed(derive_seed(cx.seed, cx.prop, h as u64, 7), 10 + h as u64), &strat, per_shard / 8, acc, &|c: &EvoSuffixCase| to_json(&json!({"Evo": c})), &mut |c, a, r| check_c07_evo(c, a, r)) {
+                return;
+            }
+        }
     });
     let mut r = PropResult::new(
         acc,
         "exploration",
-        "cases = 1 value, or 2-5 values of different types written back to back into one SerializationContext, followed by a suffix (empty, one byte, bytes that look like a continuation, random up to 64 bytes). The values are decoded in order from one DeserializationContext, which is then drained with read_u8: every value must come back and the drained bytes must equal the suffix exactly. Non-trivial = non-empty suffix and an encoding of >= 2 bytes.",
+        "cases = 1 value, or 2-5 values of different types written back to back into one SerializationContext, followed by a suffix (empty, one byte, bytes that look like a continuation, random up to 64 bytes). The values are decoded in order from one DeserializationContext, which is then drained with read_u8: every value must come back and the drained bytes must equal the suffix exactly. Non-trivial = non-empty suffix and an encoding of >= 2 bytes. Evolved records: the same with (history, writer version w, reader version r, value, placement) cases from run-time histories and from the compiled batch — data of version w followed by a suffix is read by version r; when the documented outcome is a value the reader must leave exactly the suffix (unknown chunks skipped in full); stored version 0 read by a definition that removed fields is outside the quantifier (counted).",
     );
     r.assumptions = vec!["DeserializationContext is a public BinaryInput: the unread remainder is observed without a hook".into()];
     r
 }
 
 pub fn replay_c07(case: &Value) -> Verdict {
-    let c: SuffixCase = serde_json::from_value(case.clone()).expect("replay case");
+    if let Some(e) = case.get("Evo") {
+        let c: EvoSuffixCase = serde_json::from_value(e.clone()).expect("replay case");
+        return check_c07_evo(&c, &mut Acc::new(), false);
+    }
+    let c: SuffixCase = serde_json::from_value(case.get("Plain").cloned().unwrap_or(case.clone())).expect("replay case");
     check_c07(&c, &mut Acc::new(), false)
 }
 
@@ -180,6 +244,30 @@ fn cut_classes(ty: &Ty, val: &Val, len: usize) -> Vec<(usize, &'static str)> {
     out
 }
 
+/// truncation under another definition: only when the stored version is >= 1 (version-0 data carries no sizes)
+pub fn check_c08_evo(c: &EvoCase, acc: &mut Acc, record: bool) -> Verdict {
+    let (_tw, tr, bytes, _expected, stored_version) = match materialize_evo(c) {
+        Some(x) => x,
+        None => return Verdict::Skip,
+    };
+    if stored_version == 0 && c.w != c.r {
+        if record {
+            acc.exclude("stored version 0 under a different definition (no sizes in the data)");
+        }
+        return Verdict::Skip;
+    }
+    let rel = if c.w < c.r { "w<r" } else if c.w == c.r { "w=r" } else { "w>r" };
+    for k in 0..bytes.len() {
+        if record {
+            acc.case(&format!("evolved record cut, read by another version [{rel}]{}", if c.compiled.is_some() { " compiled" } else { "" }), hash_json(&(c, k)), k > 0 && c.w != c.r);
+        }
+        if let Ok(v) = vcat::decode(&tr, &bytes[..k]) {
+            return Verdict::Fail(format!("version {} accepted the first {k} of {} bytes written by version {} (stored version byte {stored_version}) as {} (encoding {})", c.r, bytes.len(), c.w, v.brief(), hex(&bytes)));
+        }
+    }
+    Verdict::Pass
+}
+
 pub fn run_c08(cx: &Cx) -> PropResult {
     let per_shard = cx.n(1_500, 60_000);
     let acc = parallel(cx, &|shard, acc| {
@@ -189,18 +277,36 @@ pub fn run_c08(cx: &Cx) -> PropResult {
             return;
         }
         let strat = tv_strategy_ext(2, ValCfg { max_len: 4, long: false, ..ValCfg::default() }, true);
-        drive(crate::run::tag_seed(derive_seed(cx.seed, cx.prop, shard as u64, 1), 1), &strat, per_shard / 2, acc, &|c: &TV| to_json(c), &mut |c, a, r| check_c08(c, a, r));
+        if drive(crate::run::tag_seed(derive_seed(cx.seed, cx.prop, shard as u64, 1), 1), &strat, per_shard / 2, acc, &|c: &TV| to_json(c), &mut |c, a, r| check_c08(c, a, r)) {
+            return;
+        }
+        // evolved records cut at every offset and read by older / newer definitions
+        let strat = evo_case_strategy(5, 8);
+        if drive(crate::run::tag_seed(derive_seed(cx.seed, cx.prop, shard as u64, 2), 2), &strat, per_shard / 2, acc, &|c: &EvoCase| to_json(&json!({"Evo": c})), &mut |c, a, r| check_c08_evo(c, a, r)) {
+            return;
+        }
+        let nh = crate::props::derived::batch().histories.len();
+        for h in (shard..nh).step_by(cx.shards) {
+            let strat = compiled_evo_strategy(h);
+            if drive(crate::run::tag_seed(derive_seed(cx.seed, cx.prop, h as u64, 7), 10 + h as u64), &strat, per_shard / 10, acc, &|c: &EvoCase| to_json(&json!({"Evo": c})), &mut |c, a, r| check_c08_evo(c, a, r)) {
+                return;
+            }
+        }
     });
     let mut r = PropResult::new(
         acc,
         "fault_enumeration",
-        "for every generated (type, value) the encoding is cut at EVERY offset 0 <= k < len (exhaustive per value) and each prefix is decoded with the writing definition; the result must be Err. evaluations = number of (value, cut) pairs; classes = kind of site the cut lands in (from the reference encoder's site map). Non-trivial = cut at an offset > 0; distinct by hash of (T, v, k).",
+        "for every generated (type, value) the encoding is cut at EVERY offset 0 <= k < len (exhaustive per value) and each prefix is decoded with the writing definition; the result must be Err. evaluations = number of (value, cut) pairs; classes = kind of site the cut lands in (from the reference encoder's site map). Non-trivial = cut at an offset > 0; distinct by hash of (T, v, k). Valid encodings include the reference encoder's unknown-length renderings. Evolved records: (history, w, r, value, placement) cases from run-time histories and the compiled batch are cut at every offset and read by version r whenever the stored version is >= 1.",
     );
     r.assumptions = vec!["soundness of the oracle: decoding consumes exactly the encoding (C07) and control flow depends only on bytes already read, so a strict prefix forces a read past the end".into()];
     r
 }
 
 pub fn replay_c08(case: &Value) -> Verdict {
+    if let Some(e) = case.get("Evo") {
+        let c: EvoCase = serde_json::from_value(e.clone()).expect("replay case");
+        return check_c08_evo(&c, &mut Acc::new(), false);
+    }
     let c: TV = serde_json::from_value(case.clone()).expect("replay case");
     check_c08(&c, &mut Acc::new(), false)
 }
